@@ -239,6 +239,14 @@ pub fn run(ctx: &Ctx) -> i32 {
             case_malformed(ty, &serde_json::to_string(&s).unwrap(), acc);
         });
     }
+    // a valid RFC 3339 prefix + every tail of length <= 5 (offset parts of every byte length) through Deserialize
+    for prefix in ["2022-05-02T15:30:20", "2022-05-02T15:30:20.25"] {
+        let nt = count_strings(16, 5);
+        rep.sweep(&format!("malformed: {:?} + every tail of length <= 5 over TEXT_SIGMA through Deserialize<DateTime>", prefix), nt, "", |i, acc| {
+            let s = format!("{}{}", prefix, nth_string(&TEXT_SIGMA, 5, i));
+            case_malformed(2, &serde_json::to_string(&s).unwrap(), acc);
+        });
+    }
     let docs = ["null", "0", "1.5", "true", "[]", "{}", "[\"2022-05-02\"]", "{\"days\":1}", "\"\"", "", "\"2022-05-02", "-1", "1e400"];
     rep.sweep("malformed: non-string JSON documents x 3 types", docs.len() as u64 * 3, "", |i, acc| case_malformed((i % 3) as u8, docs[(i / 3) as usize], acc));
     rep.finish()
